@@ -27,3 +27,119 @@ pub fn replay_room_definition_changed(room: crate::database::room::Room, key: Ve
         out
     })
 }
+
+/// C19: runs the real LocalPeerService::initialise_connection against a scripted remote side.
+/// The scenario carries relations (does the answer verify, is the proven key the expected one, …); real keys and
+/// signatures realising them are built here.
+pub fn replay_handshake(sc: &serde_json::Value) -> serde_json::Value {
+    use crate::security::{base64_encode, new_uid, Ed25519SigningKey, SigningKey};
+    use serde_json::json;
+    let b = |k: &str| sc[k].as_bool().unwrap_or(false);
+    let rt = tokio::runtime::Builder::new_multi_thread().enable_all().worker_threads(2).build().unwrap();
+    rt.block_on(async move {
+        let remote = Ed25519SigningKey::create_from(&crate::security::random32());
+        let other = Ed25519SigningKey::create_from(&crate::security::random32());
+        let remote_key: Vec<u8> = if b("remote_key_wellformed") { remote.export_verifying_key() } else { vec![9, 9, 9] };
+
+        // the sys.Peer row of the remote side
+        let mut peer = crate::database::system_entities::Peer::create(new_uid(), base64_encode(&crate::security::random32()));
+        if !b("peer_valid") {
+            peer.room_id = Some(new_uid());
+        }
+        peer.sign(&remote).unwrap();
+        peer.verifying_key = remote_key.clone();
+
+        let token_type = match sc["token_type"].as_str().unwrap() {
+            "AllowedPeer" => {
+                let expected = if !b("expected_decodes") {
+                    "!!! not base64 !!!".to_string()
+                } else if b("expected_matches") {
+                    base64_encode(&remote_key)
+                } else {
+                    base64_encode(&other.export_verifying_key())
+                };
+                TokenType::AllowedPeer(crate::database::system_entities::AllowedPeer {
+                    peer: crate::database::system_entities::Peer { id: "peer".to_string(), verifying_key: expected },
+                    meeting_token: "".to_string(),
+                })
+            }
+            "OwnedInvite" => TokenType::OwnedInvite(crate::database::system_entities::OwnedInvite { id: new_uid(), room: None, authorisation: None }),
+            _ => {
+                let mut inv = crate::database::system_entities::Invite { invite_id: new_uid(), application: "verif".to_string(), invite_sign: vec![] };
+                let signer = if b("invite_signed_by_remote") { &remote } else { &other };
+                inv.invite_sign = signer.sign(&inv.hash());
+                TokenType::Invite(inv)
+            }
+        };
+        let local_key = if b("local_is_remote") { remote_key.clone() } else { other.export_verifying_key() };
+
+        // scripted remote side: answers the identity challenge
+        let (remote_sender, mut queries) = mpsc::channel::<QueryProtocol>(4);
+        let (answers, remote_receiver) = mpsc::channel::<Answer>(4);
+        let query_service = QueryService::start(remote_sender, remote_receiver);
+        let proof_valid = b("proof_valid");
+        let query_fails = b("query_fails");
+        let answer_peer = peer.clone();
+        let responder = tokio::spawn(async move {
+            let mut challenges = 0;
+            while let Some(q) = queries.recv().await {
+                if let Query::ProveIdentity(challenge) = q.query {
+                    challenges += 1;
+                    if query_fails {
+                        let _ = answers.send(Answer { id: q.id, success: false, complete: true, serialized: bincode::serialize(&Error::Authorisation("refused".to_string())).unwrap() }).await;
+                        continue;
+                    }
+                    let chall_signature = if proof_valid { remote.sign(&challenge) } else { remote.sign(b"another challenge") };
+                    let ans = IdentityAnswer { peer: answer_peer.clone(), chall_signature };
+                    let _ = answers.send(Answer { id: q.id, success: true, complete: true, serialized: bincode::serialize(&ans).unwrap() }).await;
+                }
+            }
+            challenges
+        });
+
+        let (pcs_sender, mut pcs_rx) = mpsc::channel::<crate::peer_connection_service::PeerConnectionMessage>(8);
+        let peer_service = PeerConnectionService { sender: pcs_sender };
+        let (event_sender, mut event_rx) = mpsc::channel::<RemoteEvent>(8);
+        if b("send_event_fails") {
+            event_rx.close();
+        }
+        let conn_ready = Arc::new(AtomicBool::new(true));
+        let bound = Arc::new(Mutex::new(Vec::<u8>::new()));
+        let info = ConnectionInfo { endpoint_id: new_uid(), remote_id: new_uid(), conn_id: new_uid(), meeting_token: [0; crate::security::MEETING_TOKEN_SIZE], peer_verifying_key: vec![] };
+        let res = LocalPeerService::initialise_connection(&info, &local_key, token_type, &conn_ready, &query_service, &bound, &peer_service, &event_sender).await;
+        drop(query_service);
+        drop(peer_service);
+        let mut effects: Vec<String> = vec![];
+        let mut connected_is_remote = true;
+        while let Ok(m) = pcs_rx.try_recv() {
+            match m {
+                crate::peer_connection_service::PeerConnectionMessage::PeerConnected(k, _) => {
+                    connected_is_remote &= k.eq(&remote_key);
+                    effects.push("connected".to_string())
+                }
+                crate::peer_connection_service::PeerConnectionMessage::InviteAccepted(_, _) => effects.push("invite_accepted".to_string()),
+                _ => effects.push("other".to_string()),
+            }
+        }
+        while let Ok(e) = event_rx.try_recv() {
+            effects.push(match e {
+                RemoteEvent::Ready => "event:Ready".to_string(),
+                RemoteEvent::ReadyFingerprint => "event:ReadyFingerprint".to_string(),
+                _ => "event:other".to_string(),
+            });
+        }
+        effects.sort();
+        effects.dedup();
+        let key = bound.lock().await.clone();
+        responder.abort();
+        json!({
+            "status": "done",
+            "result": match &res { Ok(true) => "Ok(true)".to_string(), Ok(false) => "Ok(false)".to_string(), Err(_) => "Err".to_string() },
+            "error": res.err().map(|e| e.to_string()),
+            "effects": effects,
+            "key_bound": !key.is_empty(),
+            "bound_is_remote": key.eq(&remote_key),
+            "connected_is_remote": connected_is_remote,
+        })
+    })
+}
